@@ -88,6 +88,7 @@ inductive Slot where
   | val                  -- an operand of the current type
   | lab                  -- `%b`
   | retv                 -- `void` or `T V`
+  | phis                 -- `[ V, %b ], [ V, %b ] ...` (operands of the current type); only as the last slot of a row
 
 inductive Arg where
   | ty (t : Ty)
@@ -95,11 +96,12 @@ inductive Arg where
   | val (o : Operand)
   | lab (i : Ident)
   | retv (v : Option (Ty × Operand))
+  | phis (incs : List (Operand × Ident))
   deriving Inhabited
 
 /-- how the type of the result is obtained (asm newXxxInst: from the types WRITTEN in the defining instruction) -/
 inductive ResKind where
-  | none | first | cmp | loadTy | second
+  | none | first | cmp | loadTy | second | lastTy
 
 structure Row where
   hasRes : Bool
@@ -111,6 +113,9 @@ structure Row where
 
 def sCommaLabel : Bytes := [44, 32, 108, 97, 98, 101, 108, 32]        -- ", label "
 def sEq : Bytes := [32, 61, 32]                                          -- " = "
+def sTo : Bytes := [32, 116, 111, 32]                                    -- " to "
+def sPhiOpen : Bytes := [91, 32]                                         -- "[ "
+def sPhiClose : Bytes := [32, 93]                                        -- " ]"
 
 def rows : List Row := [
   ⟨true, [97, 100, 100, 32], .void, [.tyval, .lit sComma, .val], .first, false⟩,
@@ -142,8 +147,28 @@ def rows : List Row := [
   ⟨false, [114, 101, 116, 32], .void, [.retv], .none, true⟩,
   ⟨false, [98, 114, 32, 108, 97, 98, 101, 108, 32], .void, [.lab], .none, true⟩,
   ⟨false, [98, 114, 32, 105, 49, 32], .int 1, [.val, .lit sCommaLabel, .lab, .lit sCommaLabel, .lab], .none, true⟩,
-  ⟨false, [117, 110, 114, 101, 97, 99, 104, 97, 98, 108, 101], .void, [], .none, true⟩
+  ⟨false, [117, 110, 114, 101, 97, 99, 104, 97, 98, 108, 101], .void, [], .none, true⟩,
+  ⟨true, [116, 114, 117, 110, 99, 32], .void, [.tyval, .lit sTo, .ty], .lastTy, false⟩,
+  ⟨true, [122, 101, 120, 116, 32], .void, [.tyval, .lit sTo, .ty], .lastTy, false⟩,
+  ⟨true, [115, 101, 120, 116, 32], .void, [.tyval, .lit sTo, .ty], .lastTy, false⟩,
+  ⟨true, [102, 112, 116, 114, 117, 110, 99, 32], .void, [.tyval, .lit sTo, .ty], .lastTy, false⟩,
+  ⟨true, [102, 112, 101, 120, 116, 32], .void, [.tyval, .lit sTo, .ty], .lastTy, false⟩,
+  ⟨true, [102, 112, 116, 111, 117, 105, 32], .void, [.tyval, .lit sTo, .ty], .lastTy, false⟩,
+  ⟨true, [102, 112, 116, 111, 115, 105, 32], .void, [.tyval, .lit sTo, .ty], .lastTy, false⟩,
+  ⟨true, [117, 105, 116, 111, 102, 112, 32], .void, [.tyval, .lit sTo, .ty], .lastTy, false⟩,
+  ⟨true, [115, 105, 116, 111, 102, 112, 32], .void, [.tyval, .lit sTo, .ty], .lastTy, false⟩,
+  ⟨true, [112, 116, 114, 116, 111, 105, 110, 116, 32], .void, [.tyval, .lit sTo, .ty], .lastTy, false⟩,
+  ⟨true, [105, 110, 116, 116, 111, 112, 116, 114, 32], .void, [.tyval, .lit sTo, .ty], .lastTy, false⟩,
+  ⟨true, [98, 105, 116, 99, 97, 115, 116, 32], .void, [.tyval, .lit sTo, .ty], .lastTy, false⟩,
+  ⟨true, [97, 100, 100, 114, 115, 112, 97, 99, 101, 99, 97, 115, 116, 32], .void, [.tyval, .lit sTo, .ty], .lastTy, false⟩,
+  ⟨true, [112, 104, 105, 32], .void, [.ty, .lit [32], .phis], .loadTy, false⟩,
+  ⟨true, [102, 114, 101, 101, 122, 101, 32], .void, [.tyval], .first, false⟩
 ]
+
+def phisString (useHex : Int → Bool) (cur : Ty) : List (Operand × Ident) → Bytes
+  | [] => []
+  | [(o, b)] => sPhiOpen ++ operandString useHex cur o ++ sComma ++ identString b ++ sPhiClose
+  | (o, b) :: p :: ps => sPhiOpen ++ operandString useHex cur o ++ sComma ++ identString b ++ sPhiClose ++ sComma ++ phisString useHex cur (p :: ps)
 
 def printSlots (useHex : Int → Bool) : Ty → List Slot → List Arg → Bytes
   | _, [], _ => []
@@ -154,7 +179,26 @@ def printSlots (useHex : Int → Bool) : Ty → List Slot → List Arg → Bytes
   | cur, .lab :: fs, .lab i :: as => identString i ++ printSlots useHex cur fs as
   | cur, .retv :: fs, .retv none :: as => sVoid ++ printSlots useHex cur fs as
   | cur, .retv :: fs, .retv (some (t, o)) :: as => tyString t ++ [32] ++ operandString useHex t o ++ printSlots useHex cur fs as
+  | cur, .phis :: fs, .phis incs :: as => phisString useHex cur incs ++ printSlots useHex cur fs as
   | _, _, _ => []
+
+/-- `[ V, %b ]` groups separated by `, ` -/
+def readPhis : Nat → Ty → Bytes → Option (List (Operand × Ident) × Bytes)
+  | 0, _, _ => none
+  | f + 1, cur, s =>
+    match TyParse.stripPrefix sPhiOpen s with
+    | none => none
+    | some r0 =>
+      match readOperand cur r0 with
+      | some (o, 44 :: 32 :: r1) =>
+        (match readIdent r1 with
+         | some (b, 32 :: 93 :: 44 :: 32 :: r2) =>
+           (match readPhis f cur r2 with
+            | some (ps, r3) => some ((o, b) :: ps, r3)
+            | none => none)
+         | some (b, 32 :: 93 :: r2) => some ([(o, b)], r2)
+         | _ => none)
+      | _ => none
 
 def readSlots : Ty → List Slot → Bytes → Option (List Arg × Bytes)
   | _, [], s => some ([], s)
@@ -191,6 +235,13 @@ def readSlots : Ty → List Slot → Bytes → Option (List Arg × Bytes)
      | some (i, r) =>
        (match readSlots cur fs r with
         | some (as, r') => some (.lab i :: as, r')
+        | none => none)
+     | none => none)
+  | cur, .phis :: fs, s =>
+    (match readPhis (s.length + 1) cur s with
+     | some (incs, r) =>
+       (match readSlots cur fs r with
+        | some (as, r') => some (.phis incs :: as, r')
         | none => none)
      | none => none)
   | cur, .retv :: fs, s =>
@@ -389,6 +440,7 @@ def argUses : Arg → List Ident
   | .lab i => [i]
   | .retv none => []
   | .retv (some (_, o)) => operandUses o
+  | .phis incs => incs.flatMap fun p => operandUses p.1 ++ [p.2]
 
 def uses (f : Func) : List Ident :=
   f.blocks.flatMap fun b => (instsOf b).flatMap fun i => i.args.flatMap argUses
@@ -412,6 +464,11 @@ def firstTy : List Arg → Option Ty
   | .ty t :: _ => some t
   | _ :: as => firstTy as
 
+def lastTy : List Arg → Option Ty
+  | [] => none
+  | .ty t :: as => (match lastTy as with | some u => some u | none => some t)
+  | _ :: as => lastTy as
+
 /-- the type the parser gives the result when it creates the scaffold (from the types written in the defining instruction) -/
 def defTy (i : Inst) : Option Ty :=
   match rows[i.row]? with
@@ -423,10 +480,11 @@ def defTy (i : Inst) : Option Ty :=
     | .cmp => (firstTyval i.args).map cmpTy
     | .loadTy => firstTy i.args
     | .second => secondTyval i.args
+    | .lastTy => lastTy i.args
 
 def env (f : Func) : List (Ident × Ty) :=
   f.params.map (fun p => (p.2, p.1)) ++
-    f.blocks.flatMap fun b => (instsOf b).filterMap fun i =>
+    f.blocks.flatMap fun b => (b.label, Ty.label) :: (instsOf b).filterMap fun i =>
       match i.res, defTy i with
       | some id, some t => some (id, t)
       | _, _ => none
@@ -495,6 +553,7 @@ def blockDefs (f : Func) : List Ident := f.blocks.map (·.label)
 
 def argLabs : Arg → List Ident
   | .lab i => [i]
+  | .phis incs => incs.map (·.2)
   | _ => []
 
 def labUses (f : Func) : List Ident :=
@@ -534,6 +593,7 @@ def argOKB : Arg → Bool
   | .lab i => identOKB i
   | .retv none => true
   | .retv (some (t, o)) => operandOKB o && !isVoid t
+  | .phis incs => !incs.isEmpty && incs.all fun p => operandOKB p.1 && identOKB p.2
 
 def matchesB : List Slot → List Arg → Bool
   | [], [] => true
@@ -543,6 +603,7 @@ def matchesB : List Slot → List Arg → Bool
   | .val :: fs, .val _ :: as => matchesB fs as
   | .lab :: fs, .lab _ :: as => matchesB fs as
   | .retv :: fs, .retv _ :: as => matchesB fs as
+  | .phis :: fs, .phis _ :: as => matchesB fs as
   | _, _ => false
 
 def instOKB (i : Inst) : Bool :=
